@@ -43,33 +43,35 @@ type Outcome = PathRes
 type Intrinsic func(e *Exec, st *State, fn *ssa.Function, args []Value) []Outcome
 
 type Exec struct {
-	prog       *ssa.Program
-	tc         *TermCtx
-	sol        *Solver
-	xsol       *Solver // optional second solver for assertion obligations (thorough tier)
-	opts       Options
-	stats      Stats
-	nextObj    int
-	sentinels  map[string]int
-	pools      map[int]int
-	inSpawned  int
-	curDepth   int
-	lastNow    *Term
-	deadline   time.Time
-	stack      []string
-	curInstr   ssa.Instruction
-	tier       string
-	stubFns    []*ssa.Function
-	bounds     map[int]int
-	harnessAPI map[string]Intrinsic
-	globals    map[*ssa.Global]int
-	selMemo    map[selKey]*Term
-	infos      map[*ssa.Function]*fnInfo
-	intrinsics map[string]Intrinsic
-	overrides  map[string]*ssa.Function
-	initPkgs   map[string]bool
-	h          *HarnessRun // current harness context
-	unroll     int
+	prog           *ssa.Program
+	tc             *TermCtx
+	sol            *Solver
+	xsol           *Solver // optional second solver for assertion obligations (thorough tier)
+	opts           Options
+	stats          Stats
+	nextObj        int
+	sentinels      map[string]int
+	pools          map[int]int
+	inSpawned      int
+	spawnSeq       int // sequence number of the goroutine vRunSpawned is running
+	spawnWatermark int // objects with a larger id were allocated by the running goroutine itself
+	curDepth       int
+	lastNow        *Term
+	deadline       time.Time
+	stack          []string
+	curInstr       ssa.Instruction
+	tier           string
+	stubFns        []*ssa.Function
+	bounds         map[int]int
+	harnessAPI     map[string]Intrinsic
+	globals        map[*ssa.Global]int
+	selMemo        map[selKey]*Term
+	infos          map[*ssa.Function]*fnInfo
+	intrinsics     map[string]Intrinsic
+	overrides      map[string]*ssa.Function
+	initPkgs       map[string]bool
+	h              *HarnessRun // current harness context
+	unroll         int
 }
 
 type fnInfo struct {
@@ -631,7 +633,7 @@ func (e *Exec) callFunction(st *State, fn *ssa.Function, args []Value, bind []Va
 	if len(fn.Blocks) == 0 {
 		if in, ok := e.harnessAPI[fn.Name()]; ok && fn.Pkg != nil && strings.HasPrefix(fn.Name(), "v") {
 			switch fn.Name() {
-			case "vRunSpawned", "vSpawnCount", "vSendCount", "vLocksHeldNow", "vDistinctRandom":
+			case "vRunSpawned", "vSpawnCount", "vSendCount", "vLocksHeldNow", "vDistinctRandom", "vSharedMapRaces":
 				if e.h != nil {
 					e.h.EngineOnlyAPI = true
 				}
